@@ -237,14 +237,19 @@ def audit_solution(f, x, objval=None, tol=1e-6, int_tol=1e-5):
     for e in getattr(f, 'xmat', []) or []:
         # rsome/ECOS convention: (x0, x1, x2): x2*exp(x0/x2) <= x1, x2 > 0
         a0, a1, a2 = xx[e[0]], xx[e[1]], xx[e[2]]
-        if a2 < -10 * tol or a1 < -10 * tol:
+        sc = 1 + abs(a0) + abs(a1) + abs(a2)
+        if a2 < -10 * tol * sc or a1 < -10 * tol * sc:
             bad.append(('exp_sign', float(min(a1, a2))))
-        elif a2 > 1e-9:
+        elif a2 > 1e-6 * sc and a1 > 1e-12:
+            # two equivalent forms; the cone is violated only if both are (each of them is
+            # hypersensitive in one corner of the cone)
             lhs = a2 * np.exp(min(a0 / a2, 700))
-            if lhs - a1 > 1e-4 * (1 + abs(lhs)):
-                bad.append(('exp', float(lhs - a1)))
+            v1 = (lhs - a1) / (1 + abs(a1) + abs(lhs))
+            v2 = (a0 - a2 * np.log(a1 / a2)) / sc
+            if min(v1, v2) > 20 * tol:
+                bad.append(('exp', float(min(v1, v2))))
         else:
-            if a0 > 10 * tol:
+            if a0 > 100 * tol * sc:
                 bad.append(('exp_degenerate', float(a0)))
     if objval is not None and f.obj is not None:
         o = float(np.asarray(f.obj).reshape(-1)[:n] @ xx)
